@@ -133,7 +133,15 @@ def tie_module(name):
 SHAPE_TIES = {'tieA_struct_uses', 'tieA_envelope_struct_uses', 'tieA_protocol_header_struct_uses',
               'tieA_content_header_struct_uses', 'tieA_frame_except_sites', 'tieA_decode_except_sites',
               'tieA_codec_calls', 'tieA_time_calls', 'tieA_frame_constants', 'tieA_guard_packers'}
+# the integer ladder and the range guards are what C11 is about: hard there. For the other properties that rely on
+# them (C03, C04, C10: values round-trip / refine the grammar / are never corrupted) the hand-written model's ladder is
+# tied to the code by the `enc_tint` / `enc_prim` lanes as well, so there the syntactic reading is a shape obligation.
+SOFT_FOR = {'C03': {'tieA_ladder', 'tieA_guards'}, 'C04': {'tieA_ladder', 'tieA_guards'}, 'C10': {'tieA_ladder', 'tieA_guards'}}
 SKIP_TIES = set()      # shape obligations that did not build in this run
+
+
+def is_shape(pid, t):
+    return t in SHAPE_TIES or t in SOFT_FOR.get(pid, ())
 
 
 def lean_targets(pid, shape=None):
@@ -141,9 +149,9 @@ def lean_targets(pid, shape=None):
     reg = REGISTRY[pid]
     ties = [t for t in reg['tie'] if t not in SKIP_TIES]
     if shape is False:
-        ties = [t for t in ties if t not in SHAPE_TIES]
+        ties = [t for t in ties if not is_shape(pid, t)]
     if shape is True:
-        return [tie_module(t) for t in ties if t in SHAPE_TIES]
+        return [tie_module(t) for t in ties if is_shape(pid, t)]
     return [T + m for m in reg['mods']] + [tie_module(t) for t in ties]
 
 
@@ -165,7 +173,7 @@ def prepare(pid, need_driver=True):
             info['log'] = out[-6000:]
             info['failed_modules'] = sorted(set(re.findall(r'^- (Pamqp[\w.]*)', out, re.M)))
         info['advisory'] = []
-        for t in [t for t in REGISTRY[pid]['tie'] if t in SHAPE_TIES]:
+        for t in [t for t in REGISTRY[pid]['tie'] if is_shape(pid, t)]:
             rc3, out3 = sh(['lake', 'build', tie_module(t)], cwd=LEAN)
             if rc3 != 0:
                 SKIP_TIES.add(t)
